@@ -372,8 +372,16 @@ namespace
                 s[u].obj = new (s[u].mem) SV();
                 for (size_t i = 0; i < cnt; i++) s[u].obj->push_back(src[i]);
 #else
-                int style = (int)mod(arg(o, 3), 3);
+                int style = (int)mod(arg(o, 3), 5);
                 if (style == 0) s[u].obj = new (s[u].mem) SV(src.data(), src.data() + cnt);
+                else if (style == 3)
+                {
+                    // the range of a read-only array: two pointers to const
+                    const E *first = src.data(), *last = src.data() + cnt;
+                    s[u].obj = new (s[u].mem) SV(first, last);
+                    probe("ctor_from_pointers_to_const");
+                }
+                else if (style == 4) s[u].obj = new (s[u].mem) SV(src.cbegin(), src.cend());
                 else if (style == 1)
                 {
                     R.guard = false;
